@@ -1,2 +1,1 @@
-import GateModel.Base.Bytes
 import GateModel.Base.Line
